@@ -500,7 +500,7 @@ where
     | .failedChild none => "fc none"
     | .failedChild (some c) => "fc " ++ go c
 
-def reportComp (t : Tree Path) (c : CDesc) : List String :=
+def reportComp (t : Tree Path) (c : CDesc) (sortDone : Bool := false) : List String :=
   let tag := s!"N {showPath c.path}"
   match stateAt t c.path with
   | none => [s!"{tag} missing"]
@@ -514,7 +514,7 @@ def reportComp (t : Tree Path) (c : CDesc) : List String :=
     [ s!"{tag} over {phaseOver s.phase}",
       s!"{tag} failed {compFailed s}",
       s!"{tag} exec {showNats s.execLog}",
-      s!"{tag} done {showNats s.doneLog}",
+      s!"{tag} done {showNats (if sortDone then sortNats s.doneLog else s.doneLog)}",
       s!"{tag} st " ++ " ".intercalate (ids.map fun i => s!"{i}:{showSt (s.st i)}"),
       s!"{tag} calls " ++ " ".intercalate (ids.map fun i => s!"{i}:{s.calls i}"),
       s!"{tag} cls " ++ " ".intercalate (ids.map fun i => s!"{i}:{cls i}"),
@@ -770,7 +770,7 @@ def step' (s : DSt) (ws : List String) : DSt × List String :=
       | some m => m
       | none => if g.toks.isEmpty then "ok" else "tokens-left"
     ({ s with lastTree := some g.t.core },
-     [s!"wf {s.descs.all (·.f.check)}"] ++ (s.descs.map (reportComp g.t.core)).flatten ++
+     [s!"wf {s.descs.all (·.f.check)}"] ++ (s.descs.map (fun c => reportComp g.t.core c true)).flatten ++
         [s!"chain {showErr (raised g.t.core)}", s!"status {status}", s!"mid [{",".intercalate (midPaths g.t s.descs)}]"])
   | ["ncycle", su, ex, em, rc] =>
     -- the outermost runnable's own run cycle around the nested run just made
